@@ -262,7 +262,14 @@ static int drv_groupgen(const Opts &o)
 {
 	SplitMix g(o.seed ^ 0x6767656e);
 	bool thorough = (o.tier == "thorough");
-	for (uint64_t c = 0; c < o.cases; c++) one_case(g, c, thorough);
+	for (uint64_t c = 0; c < o.cases; c++) {
+		// tmcg_mpz_lprime does not return for some tiny size pairs (it draws q once and then only the cofactor: DESIGN.md
+		// §11.8); such a case is given up after 300 000 draws and reported as skipped, not judged
+		coins.budget = 300000; coins.draws = 0;
+		try { one_case(g, c, thorough); }
+		catch (const CoinBudgetExceeded &) { coins.take(); hashlog.clear(); emit("prop.groupgen.skip case=" + std::to_string(c) + " => draw-budget-exceeded"); }
+		coins.budget = 0;
+	}
 	for (auto &s : stats)
 		emit("prop.groupgen " + s.first + " generated=" + std::to_string(s.second.gen) + " accepted=" + std::to_string(s.second.acc) + " collided=" + std::to_string(s.second.col));
 	return 0;
